@@ -22,6 +22,10 @@ fn arc(a: &[f64; 4], b: &[f64; 4]) -> f64 {
 }
 fn ceil_i(x: f64) -> i64 { if !x.is_finite() { 1 << 30 } else { let c = x.ceil(); if c > 1.0e9 { 1 << 30 } else { c as i64 } } }
 
+/// angles for small_rot_proj: tiny, a hair from a half turn, a hair from a quarter turn, generic
+const SMALL_ANGLES: &[f64] = &[1.0e-3, 1.0e-5, 1.0e-7, 1.0e-8, std::f64::consts::PI - 1.0e-3, std::f64::consts::PI - 1.0e-6, std::f64::consts::PI - 1.0e-8,
+                               std::f64::consts::FRAC_PI_2 + 1.0e-7, 2.0, 3.0];
+
 pub fn exec_proj<S: Sc + BaseFloat>(op: &str, fm: &str, a: &[Val<S>]) -> Option<Val<S>> {
     use Val::*;
     let eps = f(S::epsilon());
@@ -125,16 +129,22 @@ pub fn exec_proj<S: Sc + BaseFloat>(op: &str, fm: &str, a: &[Val<S>]) -> Option<
         // C05 / C06 at small angles: a rotation by d = 1e-3 .. 1e-8 rad about the exact unit axis n is built natively in the
         // given representation, taken along a route (applied directly, inverted, composed with itself, converted to another
         // representation first), and applied to the exact unit vector v perpendicular to n.  The recorder measures the distance
-        // from cos(kd) v + sin(kd) (n x v), k = 1 (0 for the inverse round trip, 2 for the square), in millionths of d.
+        // from cos(kd) v + sin(kd) (n x v), k = 1 (0 for the inverse round trip, 2 for the square), in machine epsilons
+        // (for d = 1e-8 a bound of 256 eps is a few millionths of the angle).  The table also has angles a hair from a half
+        // turn and a quarter turn, and two generic ones.
         ("small_rot_proj", [T(ty), T(route), V3(n), V3(v), I(dc)]) => {
-            let table: &[f64] = &[1.0e-3, 1.0e-5, 1.0e-7, 1.0e-8];
-            let d = table[(*dc as usize) % table.len()];
+            let d = SMALL_ANGLES[(*dc as usize) % SMALL_ANGLES.len()];
             let th: Rad<S> = Rad(NumCast::from(d).unwrap());
             let on_axis = |w: &Vector3<S>| -> Option<usize> { [Vector3::unit_x(), Vector3::unit_y(), Vector3::unit_z()].iter().position(|e| e == w) };
             let fa = route == "from_angle";
+            let zr: Rad<S> = Rad(S::zero());
+            let euler = |ax: usize| -> Euler<Rad<S>> { match ax { 0 => Euler::new(th, zr, zr), 1 => Euler::new(zr, th, zr), _ => Euler::new(zr, zr, th) } };
             // the rotation as a quaternion, a 3x3 matrix, a basis or a 4x4 matrix
             enum R<S: BaseFloat> { Q(Quaternion<S>), M3(Matrix3<S>), B3(Basis3<S>), M4(Matrix4<S>) }
             let r: R<S> = match (ty.as_str(), fa) {
+                (_, false) if route == "euler" => { let ax = on_axis(n)?; match ty.as_str() {
+                    "Quaternion" => R::Q(Quaternion::from(euler(ax))), "Matrix3" => R::M3(Matrix3::from(euler(ax))),
+                    "Basis3" => R::B3(Basis3::from(euler(ax))), "Matrix4" => R::M4(Matrix4::from(euler(ax))), _ => return None } }
                 ("Quaternion", false) => R::Q(Rotation3::from_axis_angle(*n, th)),
                 ("Matrix3", false) => R::M3(Matrix3::from_axis_angle(*n, th)),
                 ("Basis3", false) => R::B3(Rotation3::from_axis_angle(*n, th)),
@@ -150,7 +160,9 @@ pub fn exec_proj<S: Sc + BaseFloat>(op: &str, fm: &str, a: &[Val<S>]) -> Option<
             let up3 = |m: &Matrix4<S>| Matrix3::from_cols(m.x.truncate(), m.y.truncate(), m.z.truncate());
             let apply = |r: &R<S>, w: Vector3<S>| -> Vector3<S> { match r { R::Q(q) => *q * w, R::M3(m) => *m * w, R::B3(b) => b.rotate_vector(w), R::M4(m) => (*m * w.extend(S::zero())).truncate() } };
             let (k, out): (f64, Vector3<S>) = match route.as_str() {
-                "direct" | "from_angle" => (1.0, apply(&r, *v)),
+                "direct" | "from_angle" | "euler" => (1.0, apply(&r, *v)),
+                // extract Euler angles from the quaternion and rebuild the rotation from them (outside the gimbal cone)
+                "to_euler" => (1.0, match &r { R::Q(q) => Matrix3::from(Euler::from(*q)) * *v, _ => return None }),
                 "rotate_vector" => (1.0, match &r { R::Q(q) => q.rotate_vector(*v), R::B3(b) => b.rotate_vector(*v), _ => return None }),
                 "invert" => { let w = apply(&r, *v);
                     (0.0, match &r { R::Q(q) => Rotation::invert(q).rotate_vector(w), R::B3(b) => Rotation::invert(b).rotate_vector(w),
@@ -168,12 +180,11 @@ pub fn exec_proj<S: Sc + BaseFloat>(op: &str, fm: &str, a: &[Val<S>]) -> Option<
             let o = [f(out.x), f(out.y), f(out.z)];
             let err = (0..3).map(|i| (o[i] - (c * vv[i] + sn * m[i])).powi(2)).sum::<f64>().sqrt();
             let len = (o[0] * o[0] + o[1] * o[1] + o[2] * o[2]).sqrt();
-            Tup(vec![I(ceil_i(err / d * 1.0e6)), I(ceil_i((len - 1.0).abs() / eps))])
+            Tup(vec![I(ceil_i(err / eps)), I(ceil_i((len - 1.0).abs() / eps))])
         }
         // the same in two dimensions: Basis2 / Matrix2 from a small angle
         ("small_rot_proj", [T(ty), T(route), V2(v), I(dc)]) => {
-            let table: &[f64] = &[1.0e-3, 1.0e-5, 1.0e-7, 1.0e-8];
-            let d = table[(*dc as usize) % table.len()];
+            let d = SMALL_ANGLES[(*dc as usize) % SMALL_ANGLES.len()];
             let th: Rad<S> = Rad(NumCast::from(d).unwrap());
             let (k, out): (f64, Vector2<S>) = match (ty.as_str(), route.as_str()) {
                 ("Basis2", "direct") => (1.0, <Basis2<S> as Rotation2>::from_angle(th).rotate_vector(*v)),
@@ -189,7 +200,7 @@ pub fn exec_proj<S: Sc + BaseFloat>(op: &str, fm: &str, a: &[Val<S>]) -> Option<
             let e = [c * vv[0] - sn * vv[1], sn * vv[0] + c * vv[1]];
             let err = ((f(out.x) - e[0]).powi(2) + (f(out.y) - e[1]).powi(2)).sqrt();
             let len = (f(out.x).powi(2) + f(out.y).powi(2)).sqrt();
-            Tup(vec![I(ceil_i(err / d * 1.0e6)), I(ceil_i((len - 1.0).abs() / eps))])
+            Tup(vec![I(ceil_i(err / eps)), I(ceil_i((len - 1.0).abs() / eps))])
         }
         // C11 close to unit length: x is an exact unit vector / quaternion; v = x (1 + g) is built natively for a table of small
         // g of either sign.  normalize(v) must again be x: <<| |r| - 1 | in eps, |r - x| in eps, the same for normalize_to(v, 3) / 3>>
